@@ -222,7 +222,9 @@ def report(pid, mod, a, seed, recs, wall):
         coverage=dict(
             explanation=meta.get("explanation", "") + " Bounded symbolic execution of the real functions on exact symbolic "
             "values; every (shape, path) obligation is discharged by z3 (negated assertion + path condition); "
-            "sat models are replayed on the unmodified code with floats before being reported.",
+            "sat models are replayed on the unmodified code with floats before being reported. Before a query, the negated "
+            "obligations are also evaluated numerically at a few random inputs of the path; a hit is only a counterexample candidate "
+            "(replayed like a model), never a reason to count an obligation as discharged.",
             shapes=len(recs), paths=tot["paths"], obligations=tot["obligations"], discharged=tot["discharged"],
             inconclusive=n_inc, inconclusive_list=inconc[:25],
             evaluations=max(1, tot["queries"]), path_feasibility_queries=tot["feas"],
